@@ -837,6 +837,14 @@ class Workspace(_ChannelSummaryMixin, dict):
                             "inits": parset_spec['paramset'].suggested_init,
                             "fixed": parset_spec['paramset'].suggested_fixed_as_bool,
                             "name": parset_name,
+                            # constraint settings (e.g. lumi auxdata/sigmas) are
+                            # required to rebuild the same model
+                            **{
+                                key: list(getattr(parset_spec['paramset'], key))
+                                for key in ('auxdata', 'sigmas', 'factors')
+                                if getattr(parset_spec['paramset'], key, None)
+                                is not None
+                            },
                         }
                         for parset_name, parset_spec in model.config.par_map.items()
                     ],
